@@ -1,8 +1,9 @@
 (** C13 proofs, part 6: the binary64 model (C13_Float.v). *)
-From Coq Require Import ZArith List Bool QArith Reals Lia Lra.
-From Flocq Require Import Core IEEE754.BinarySingleNaN.
-From TU Require Import Base C13_Model C13_Float.
+From Coq Require Import ZArith List Bool QArith Qreals Reals Lia Lra.
+From Flocq Require Import Core IEEE754.BinarySingleNaN Relative.
+From TU Require Import Base C13_Model C13_Float C13_F1.
 Import ListNotations.
+Close Scope Q_scope.
 Open Scope Z_scope.
 
 (** * the range clause F <= 1 is false of the expression before the repair *)
@@ -61,3 +62,652 @@ Lemma fixed_on_witnesses :
   (B2SF (c1f (f1_fl beta_tiny 1000 0 2)) = SpecFloat.S754_finite false 4503599627370496 (-52)) /\
   (Bleb (c1f (f1_fl beta_huge 1390 2 0)) f_one = true).
 Proof. split; vm_compute; reflexivity. Qed.
+
+(** * rounding: notation and the facts about Flocq's [round] used below *)
+Open Scope R_scope.
+Notation fexp64 := (SpecFloat.fexp prec emax).
+Definition rnd (x : R) : R := round radix2 fexp64 ZnearestE x.
+Definition fmt (x : R) : Prop := generic_format radix2 fexp64 x.
+Definition Fin (x : f64) : Prop := is_finite x = true.
+Definition TOP : R := bpow radix2 emax.
+Definition MAXR : R := bpow radix2 emax - bpow radix2 (emax - prec).
+
+Local Instance vexp : Valid_exp fexp64 := fexp_correct prec emax Hprec.
+Local Instance vrnd : Valid_rnd ZnearestE := valid_rnd_N _.
+
+Lemma rnd_le : forall x y, x <= y -> rnd x <= rnd y.
+Proof. intros. apply round_le; auto with typeclass_instances. Qed.
+Lemma rnd_fmt : forall x, fmt x -> rnd x = x.
+Proof. intros. apply round_generic; auto with typeclass_instances. Qed.
+Lemma rnd_le_fmt : forall x c, fmt c -> x <= c -> rnd x <= c.
+Proof. intros. apply round_le_generic; auto with typeclass_instances. Qed.
+Lemma rnd_ge_fmt : forall x c, fmt c -> c <= x -> c <= rnd x.
+Proof. intros. apply round_ge_generic; auto with typeclass_instances. Qed.
+Lemma rnd_0 : rnd 0 = 0.
+Proof. apply round_0; auto with typeclass_instances. Qed.
+Lemma fmt_0 : fmt 0.
+Proof. apply generic_format_0. Qed.
+Lemma fmt_rnd : forall x, fmt (rnd x).
+Proof. intros. apply generic_format_round; auto with typeclass_instances. Qed.
+Lemma fmt_B2R : forall x : f64, fmt (B2R x).
+Proof. intros. apply generic_format_B2R. Qed.
+Lemma fmt_bpow : forall e, (-1074 <= e)%Z -> fmt (bpow radix2 e).
+Proof.
+  intros e H. apply generic_format_bpow. unfold SpecFloat.fexp, SpecFloat.emin, prec, emax. lia.
+Qed.
+Lemma rnd_nonneg : forall x, 0 <= x -> 0 <= rnd x.
+Proof. intros. apply rnd_ge_fmt; [apply fmt_0|assumption]. Qed.
+
+Lemma fmt_IZR : forall z, (Z.abs z <= 2 ^ 53)%Z -> fmt (IZR z).
+Proof.
+  intros z H. destruct (Z.eq_dec (Z.abs z) (2 ^ 53)) as [E|E].
+  - assert (Hz : z = (2 ^ 53)%Z \/ z = (- 2 ^ 53)%Z) by lia.
+    destruct Hz as [-> | ->].
+    + change (IZR (2 ^ 53)) with (IZR (Zpower radix2 53)). rewrite IZR_Zpower by lia.
+      apply fmt_bpow. lia.
+    + rewrite opp_IZR. apply generic_format_opp.
+      change (IZR (2 ^ 53)) with (IZR (Zpower radix2 53)). rewrite IZR_Zpower by lia.
+      apply fmt_bpow. lia.
+  - apply generic_format_FLT. apply (FLT_spec radix2 _ _ _ (Float radix2 z 0)).
+    + unfold F2R. cbn. ring.
+    + cbn [Fnum]. unfold prec. change (Zpower radix2 53) with (2 ^ 53)%Z. lia.
+    + cbn. unfold SpecFloat.emin, emax, prec. lia.
+Qed.
+
+Lemma fmt_1 : fmt 1.
+Proof. apply (fmt_IZR 1). lia. Qed.
+
+Lemma TOP_pos : 0 < TOP. Proof. apply bpow_gt_0. Qed.
+Lemma MAXR_lt_TOP : MAXR < TOP.
+Proof. unfold MAXR, TOP. pose proof (bpow_gt_0 radix2 (emax - prec)). lra. Qed.
+Lemma B2R_le_MAX : forall x : f64, Rabs (B2R x) <= MAXR.
+Proof. intros. apply abs_B2R_le_emax_minus_prec. exact Hprec. Qed.
+
+(** a rounded value whose argument is bounded by a representable c < 2^1024 does not overflow *)
+Lemma rnd_lt_TOP : forall x c, fmt c -> c < TOP -> Rabs x <= c -> Rabs (rnd x) < TOP.
+Proof.
+  intros x c Fc Hc Hx. apply Rle_lt_trans with c; [|exact Hc].
+  apply abs_round_le_generic; auto with typeclass_instances.
+Qed.
+
+(** * the operations on finite floats *)
+Lemma fadd_spec : forall x y : f64, Fin x -> Fin y ->
+  Rabs (rnd (B2R x + B2R y)) < TOP ->
+  B2R (fadd x y) = rnd (B2R x + B2R y) /\ Fin (fadd x y).
+Proof.
+  intros x y Fx Fy H. pose proof (Bplus_correct prec emax Hprec Hmax mode_NE x y Fx Fy) as C.
+  cbn [round_mode] in C. fold (rnd (B2R x + B2R y)) in C. fold TOP in C.
+  rewrite (Rlt_bool_true _ _ H) in C. destruct C as (C1 & C2 & _). split; assumption.
+Qed.
+
+Lemma fmul_spec : forall x y : f64, Fin x -> Fin y ->
+  Rabs (rnd (B2R x * B2R y)) < TOP ->
+  B2R (fmul x y) = rnd (B2R x * B2R y) /\ Fin (fmul x y).
+Proof.
+  intros x y Fx Fy H. pose proof (Bmult_correct prec emax Hprec Hmax mode_NE x y) as C.
+  cbn [round_mode] in C. fold (rnd (B2R x * B2R y)) in C. fold TOP in C.
+  rewrite (Rlt_bool_true _ _ H) in C. destruct C as (C1 & C2 & _). split; [assumption|].
+  unfold Fin in *. unfold fmul. rewrite C2, Fx, Fy. reflexivity.
+Qed.
+
+Lemma fdiv_spec : forall x y : f64, Fin x -> B2R y <> 0 ->
+  Rabs (rnd (B2R x / B2R y)) < TOP ->
+  B2R (fdiv x y) = rnd (B2R x / B2R y) /\ Fin (fdiv x y).
+Proof.
+  intros x y Fx Hy H. pose proof (Bdiv_correct prec emax Hprec Hmax mode_NE x y Hy) as C.
+  cbn [round_mode] in C. fold (rnd (B2R x / B2R y)) in C. fold TOP in C.
+  rewrite (Rlt_bool_true _ _ H) in C. destruct C as (C1 & C2 & _). split; [assumption|].
+  unfold Fin in *. unfold fdiv. rewrite C2. exact Fx.
+Qed.
+
+Lemma bpow53_lt_TOP : bpow radix2 53 < TOP.
+Proof. unfold TOP. apply bpow_lt. unfold emax. lia. Qed.
+
+Lemma of_Z_spec : forall z, (Z.abs z <= 2 ^ 53)%Z -> B2R (of_Z z) = IZR z /\ Fin (of_Z z).
+Proof.
+  intros z H. pose proof (binary_normalize_correct prec emax Hprec Hmax mode_NE z 0 false) as C.
+  cbv zeta in C. cbn [round_mode] in C.
+  assert (E : F2R (Float radix2 z 0) = IZR z) by (unfold F2R; cbn; ring).
+  rewrite E in C. fold (rnd (IZR z)) in C. fold TOP in C.
+  rewrite (rnd_fmt _ (fmt_IZR z H)) in C.
+  rewrite Rlt_bool_true in C.
+  - destruct C as (C1 & C2 & _). split; assumption.
+  - apply Rle_lt_trans with (bpow radix2 53); [|apply bpow53_lt_TOP].
+    rewrite <- abs_IZR. change (bpow radix2 53) with (IZR (Zpower radix2 53)). apply IZR_le.
+    change (Zpower radix2 53) with (2 ^ 53)%Z. exact H.
+Qed.
+
+Lemma B2R_zero : B2R f_zero = 0. Proof. reflexivity. Qed.
+Lemma Fin_zero : Fin f_zero. Proof. reflexivity. Qed.
+Lemma Fin_one : Fin f_one. Proof. reflexivity. Qed.
+
+(** * precision / recall: [a as f64 / b.max(1) as f64] with 0 <= a <= b < 2^53 *)
+Definition u53 : R := bpow radix2 (-53).
+
+Lemma u53_pos : 0 < u53. Proof. apply bpow_gt_0. Qed.
+Lemma u53_lt_1 : u53 < 1.
+Proof. unfold u53. change 1 with (bpow radix2 0). apply bpow_lt. lia. Qed.
+Lemma fmt_u53 : fmt u53. Proof. apply fmt_bpow. lia. Qed.
+Lemma bpow53_u53 : bpow radix2 53 * u53 = 1.
+Proof. unfold u53. rewrite <- bpow_plus. reflexivity. Qed.
+Lemma IZR_2p53 : IZR (2 ^ 53) = bpow radix2 53.
+Proof. change (IZR (2 ^ 53)) with (IZR (Zpower radix2 53)). apply IZR_Zpower. lia. Qed.
+Lemma fmt_pred1 : fmt (1 - u53).
+Proof.
+  apply generic_format_FLT. apply (FLT_spec radix2 _ _ _ (Float radix2 (2 ^ 53 - 1) (-53))).
+  - unfold F2R. cbn [Fnum Fexp]. fold u53. rewrite minus_IZR, IZR_2p53.
+    pose proof bpow53_u53. lra.
+  - cbn [Fnum]. unfold prec. change (Zpower radix2 53) with (2 ^ 53)%Z. lia.
+  - cbn [Fexp]. unfold SpecFloat.emin, emax, prec. lia.
+Qed.
+
+Lemma inv_IZR_ge_u53 : forall d, (1 <= d <= 2 ^ 53)%Z -> u53 <= / IZR d.
+Proof.
+  intros d H. change u53 with (bpow radix2 (Z.opp 53)). rewrite bpow_opp.
+  apply Rinv_le_contravar; [apply IZR_lt; lia|].
+  change (bpow radix2 53) with (IZR (Zpower radix2 53)). apply IZR_le.
+  change (Zpower radix2 53) with (2 ^ 53)%Z. lia.
+Qed.
+
+Lemma ratio_fl_spec : forall a b, (0 <= a <= b)%Z -> (b < 2 ^ 53)%Z ->
+  Fin (ratio_fl a b) /\
+  B2R (ratio_fl a b) = rnd (IZR a / IZR (Z.max b 1)) /\
+  0 <= B2R (ratio_fl a b) <= 1 /\
+  (B2R (ratio_fl a b) = 0 <-> a = 0%Z) /\
+  (B2R (ratio_fl a b) = 1 <-> (a = b /\ 0 < a)%Z) /\
+  ((0 < a)%Z -> u53 <= B2R (ratio_fl a b)) /\
+  ((a < b)%Z -> B2R (ratio_fl a b) <= 1 - u53).
+Proof.
+  intros a b Hab Hb. set (d := Z.max b 1).
+  assert (Hd : (1 <= d < 2 ^ 53)%Z) by (unfold d; lia).
+  assert (Had : (a <= d)%Z) by (unfold d; lia).
+  destruct (of_Z_spec a ltac:(lia)) as [Ra Fa].
+  destruct (of_Z_spec d ltac:(lia)) as [Rd Fd].
+  set (A := IZR a) in *. set (D := IZR d) in *.
+  assert (D1 : 1 <= D) by (apply (IZR_le 1); lia).
+  assert (A0 : 0 <= A) by (apply (IZR_le 0); lia).
+  assert (AD : A <= D) by (apply IZR_le; lia).
+  set (i := / D).
+  assert (Di : D * i = 1) by (unfold i; field; lra).
+  assert (i0 : 0 < i) by (unfold i; apply Rinv_0_lt_compat; lra).
+  assert (iu : u53 <= i) by (apply inv_IZR_ge_u53; lia).
+  assert (Q0 : 0 <= A * i) by (apply Rmult_le_pos; lra).
+  assert (Q1 : A * i <= 1).
+  { assert (0 <= (D - A) * i) by (apply Rmult_le_pos; lra). lra. }
+  assert (S : B2R (ratio_fl a b) = rnd (A * i) /\ Fin (ratio_fl a b)).
+  { unfold ratio_fl. fold d.
+    assert (E : B2R (of_Z a) / B2R (of_Z d) = A * i) by (rewrite Ra, Rd; reflexivity).
+    rewrite <- E. apply fdiv_spec; [exact Fa|rewrite Rd; lra|].
+    rewrite E. apply rnd_lt_TOP with 1; [apply fmt_1|unfold TOP; change 1 with (bpow radix2 0); apply bpow_lt; unfold emax; lia|].
+    rewrite Rabs_pos_eq; assumption. }
+  destruct S as [S FS]. fold D. change (A / D) with (A * i).
+  assert (R0 : 0 <= rnd (A * i)) by (apply rnd_nonneg; exact Q0).
+  assert (R1 : rnd (A * i) <= 1) by (apply rnd_le_fmt; [apply fmt_1|exact Q1]).
+  assert (Pos : (0 < a)%Z -> u53 <= rnd (A * i)).
+  { intros Ha. apply rnd_ge_fmt; [apply fmt_u53|].
+    assert (1 <= A) by (apply (IZR_le 1); lia).
+    assert (0 <= (A - 1) * i) by (apply Rmult_le_pos; lra). lra. }
+  assert (Lt : (a < d)%Z -> rnd (A * i) <= 1 - u53).
+  { intros Ha. apply rnd_le_fmt; [apply fmt_pred1|].
+    assert (A + 1 <= D) by (unfold A, D; rewrite <- (plus_IZR a 1); apply IZR_le; lia).
+    assert (0 <= (D - A - 1) * i) by (apply Rmult_le_pos; lra). lra. }
+  pose proof u53_pos as U0.
+  rewrite S. repeat split; try assumption.
+  - intros E0. destruct (Z.eq_dec a 0) as [Z0|NZ]; [exact Z0|]. specialize (Pos ltac:(lia)). lra.
+  - intros ->. unfold A. rewrite Rmult_0_l. apply rnd_0.
+  - destruct (Z.eq_dec a b) as [Eab|Nab]; [exact Eab|]. specialize (Lt ltac:(lia)). lra.
+  - destruct (Z_lt_le_dec 0 a) as [Pa|Na]; [exact Pa|].
+    assert (a = 0%Z) by lia. subst a. unfold A in H. rewrite Rmult_0_l, rnd_0 in H. lra.
+  - intros [Eab Pa]. assert (a = d) by (unfold d; lia).
+    assert (AeD : A = D) by (unfold A, D; congruence).
+    rewrite AeD, Di. apply rnd_fmt, fmt_1.
+  - intros Ha. apply Lt. unfold d. lia.
+Qed.
+
+
+(** * no overflow when at most 1 is added to a finite float *)
+Lemma fmt_TOP : fmt TOP.
+Proof. unfold TOP. apply generic_format_bpow. unfold SpecFloat.fexp, SpecFloat.emin, emax, prec. lia. Qed.
+Lemma MAXR_pred : MAXR = pred radix2 fexp64 TOP.
+Proof. unfold MAXR, TOP. rewrite pred_bpow. reflexivity. Qed.
+Lemma fmt_MAXR : fmt MAXR.
+Proof. rewrite MAXR_pred. apply generic_format_pred; [apply vexp|apply fmt_TOP]. Qed.
+Lemma succ_MAXR : succ radix2 fexp64 MAXR = TOP.
+Proof. rewrite MAXR_pred. apply succ_pred; [apply vexp|apply fmt_TOP]. Qed.
+Lemma MAXR_pos : 0 < MAXR.
+Proof.
+  unfold MAXR. assert (bpow radix2 (emax - prec) < bpow radix2 emax) by (apply bpow_lt; unfold emax, prec; lia). lra.
+Qed.
+
+Lemma rnd_MAX_plus_1 : forall v, v <= MAXR + 1 -> rnd v <= MAXR.
+Proof.
+  intros v H. apply round_N_le_midp; [apply vexp|apply fmt_MAXR|]. rewrite succ_MAXR.
+  unfold MAXR in *. fold TOP in *.
+  assert (E : bpow radix2 (emax - prec) = 2 * bpow radix2 970).
+  { change (emax - prec)%Z with (1 + 970)%Z. rewrite bpow_plus. reflexivity. }
+  assert (1 < bpow radix2 970) by (change 1 with (bpow radix2 0); apply bpow_lt; lia).
+  lra.
+Qed.
+
+(** * building blocks on non-negative finite floats *)
+Definition NNF (x : f64) : Prop := Fin x /\ 0 <= B2R x.
+
+Lemma NNF_le_MAX : forall x, NNF x -> B2R x <= MAXR.
+Proof. intros x [_ H]. pose proof (B2R_le_MAX x) as M. rewrite Rabs_pos_eq in M; assumption. Qed.
+
+(** multiplying by a float in [0,1] stays below the other factor *)
+Lemma fmul_le1 : forall x y, NNF x -> NNF y -> B2R y <= 1 ->
+  NNF (fmul x y) /\ B2R (fmul x y) = rnd (B2R x * B2R y) /\ B2R (fmul x y) <= B2R x.
+Proof.
+  intros x y [Fx X0] [Fy Y0] Y1.
+  assert (P0 : 0 <= B2R x * B2R y) by (apply Rmult_le_pos; assumption).
+  assert (P1 : B2R x * B2R y <= B2R x).
+  { assert (0 <= B2R x * (1 - B2R y)) by (apply Rmult_le_pos; lra). lra. }
+  destruct (fmul_spec x y Fx Fy) as [E F].
+  { apply rnd_lt_TOP with (B2R x); [apply fmt_B2R| |rewrite Rabs_pos_eq; assumption].
+    pose proof (NNF_le_MAX x (conj Fx X0)). pose proof MAXR_lt_TOP. lra. }
+  unfold NNF. rewrite E. repeat split; [exact F|apply rnd_nonneg; exact P0|apply rnd_le_fmt; [apply fmt_B2R|exact P1]].
+Qed.
+
+(** adding a float in [0,1] to a non-negative finite float does not overflow *)
+Lemma fadd_le1 : forall x y, NNF x -> NNF y -> B2R y <= 1 ->
+  NNF (fadd x y) /\ B2R (fadd x y) = rnd (B2R x + B2R y).
+Proof.
+  intros x y [Fx X0] [Fy Y0] Y1.
+  destruct (fadd_spec x y Fx Fy) as [E F].
+  { rewrite Rabs_pos_eq by (apply rnd_nonneg; lra).
+    apply Rle_lt_trans with MAXR; [|apply MAXR_lt_TOP].
+    apply rnd_MAX_plus_1. pose proof (NNF_le_MAX x (conj Fx X0)). lra. }
+  unfold NNF. rewrite E. repeat split; [exact F|apply rnd_nonneg; lra].
+Qed.
+
+(** general sum of two non-negative finite floats whose real sum is below a representable bound *)
+Lemma fadd_bound : forall x y c, NNF x -> NNF y -> fmt c -> c < TOP -> B2R x + B2R y <= c ->
+  NNF (fadd x y) /\ B2R (fadd x y) = rnd (B2R x + B2R y) /\ B2R (fadd x y) <= c.
+Proof.
+  intros x y c [Fx X0] [Fy Y0] Fc Hc H.
+  destruct (fadd_spec x y Fx Fy) as [E F].
+  { apply rnd_lt_TOP with c; try assumption. rewrite Rabs_pos_eq; lra. }
+  unfold NNF. rewrite E. repeat split; [exact F|apply rnd_nonneg; lra|apply rnd_le_fmt; assumption].
+Qed.
+
+(** * the square of beta *)
+Lemma b2_NNF : forall beta : f64, Fin (fmul beta beta) -> NNF (fmul beta beta).
+Proof.
+  intros beta F. split; [exact F|].
+  pose proof (Bmult_correct prec emax Hprec Hmax mode_NE beta beta) as C.
+  cbn [round_mode] in C. fold (rnd (B2R beta * B2R beta)) in C. fold TOP in C.
+  destruct (Rlt_bool_spec (Rabs (rnd (B2R beta * B2R beta))) TOP) as [L|L].
+  - destruct C as (C1 & _). unfold fmul. rewrite C1. apply rnd_nonneg.
+    apply Rle_0_sqr.
+  - exfalso. unfold Fin, fmul in F. rewrite <- is_finite_SF_B2SF, C in F. discriminate.
+Qed.
+
+(** * the repaired quotient is in [0,1] *)
+Lemma fbeta_fixed_range : forall b2 p r, NNF b2 -> NNF p -> B2R p <= 1 -> Fin r -> u53 <= B2R r <= 1 ->
+  Fin (fbeta_fixed b2 p r) /\ 0 <= B2R (fbeta_fixed b2 p r) <= 1.
+Proof.
+  intros b2 p r Hb Hp P1 Fr [R0 R1]. pose proof u53_pos as U.
+  assert (Hr : NNF r) by (split; [exact Fr|lra]).
+  destruct (fmul_le1 b2 p Hb Hp P1) as (Hbp & Ebp & Lbp).
+  destruct (fmul_le1 (fmul b2 p) r Hbp Hr R1) as (Hbpr & Ebpr & Lbpr).
+  destruct (fmul_le1 p r Hp Hr R1) as (Hpr & Epr & Lpr0).
+  assert (Lpr : B2R (fmul p r) <= B2R r).
+  { rewrite Epr. apply rnd_le_fmt; [apply fmt_B2R|].
+    destruct Hp as [_ P0]. assert (0 <= (1 - B2R p) * B2R r) by (apply Rmult_le_pos; lra). lra. }
+  destruct (fadd_le1 (fmul b2 p) r Hbp Hr R1) as (HD & ED).
+  assert (Lpr1 : B2R (fmul p r) <= 1) by lra.
+  destruct (fadd_le1 (fmul (fmul b2 p) r) (fmul p r) Hbpr Hpr Lpr1) as (HN & EN).
+  set (N := fadd (fmul (fmul b2 p) r) (fmul p r)) in *.
+  set (D := fadd (fmul b2 p) r) in *.
+  assert (ND : B2R N <= B2R D) by (rewrite EN, ED; apply rnd_le; lra).
+  assert (Dpos : u53 <= B2R D).
+  { rewrite ED. apply rnd_ge_fmt; [apply fmt_u53|]. destruct Hbp as [_ B0]. lra. }
+  destruct HN as [FN N0]. destruct HD as [FD D0].
+  set (i := / B2R D).
+  assert (i0 : 0 < i) by (apply Rinv_0_lt_compat; lra).
+  assert (Q0 : 0 <= B2R N * i) by (apply Rmult_le_pos; lra).
+  assert (Q1 : B2R N * i <= 1).
+  { assert (B2R D * i = 1) by (unfold i; field; lra).
+    assert (0 <= (B2R D - B2R N) * i) by (apply Rmult_le_pos; lra). lra. }
+  unfold fbeta_fixed. fold N D.
+  destruct (fdiv_spec N D FN ltac:(lra)) as [E F].
+  { change (B2R N / B2R D) with (B2R N * i).
+    apply rnd_lt_TOP with 1; [apply fmt_1|unfold TOP; change 1 with (bpow radix2 0); apply bpow_lt; unfold emax; lia|].
+    rewrite Rabs_pos_eq; assumption. }
+  change (B2R N / B2R D) with (B2R N * i) in E. rewrite E.
+  repeat split; [exact F|apply rnd_nonneg; exact Q0|apply rnd_le_fmt; [apply fmt_1|exact Q1]].
+Qed.
+
+(** * [_f1] as a whole *)
+Definition in01f (x : f64) : Prop := Fin x /\ 0 <= B2R x <= 1.
+
+Lemma fmt_2 : fmt 2.
+Proof. apply (fmt_IZR 2). lia. Qed.
+Lemma two_lt_TOP : 2 < TOP.
+Proof. unfold TOP. change 2 with (bpow radix2 1). apply bpow_lt. unfold emax. lia. Qed.
+Lemma one_lt_TOP : 1 < TOP.
+Proof. pose proof two_lt_TOP. lra. Qed.
+
+(** the guard [precision + recall > 0.0] *)
+Lemma guard_spec : forall p r, in01f p -> in01f r ->
+  fgt0 (fadd p r) = true -> 0 < B2R p \/ 0 < B2R r.
+Proof.
+  intros p r (Fp & P0 & P1) (Fr & R0 & R1) G.
+  destruct (fadd_bound p r 2 (conj Fp P0) (conj Fr R0) fmt_2 two_lt_TOP ltac:(lra)) as ([Fs _] & Es & _).
+  unfold fgt0 in G. apply Bltb_R in G; [|reflexivity|exact Fs].
+  rewrite B2R_zero, Es in G.
+  destruct (Rle_lt_dec (B2R p + B2R r) 0) as [Z|Z]; [|lra].
+  exfalso. assert (B2R p + B2R r = 0) by lra.
+  replace (B2R p + B2R r) with 0 in G. rewrite rnd_0 in G. lra.
+Qed.
+
+Lemma f1_gen_shape : forall q beta tp fp fn,
+  c2f (f1_gen q beta tp fp fn) = ratio_fl tp (tp + fp) /\
+  c3f (f1_gen q beta tp fp fn) = ratio_fl tp (tp + fn) /\
+  c1f (f1_gen q beta tp fp fn) =
+    (if fgt0 (fadd (ratio_fl tp (tp + fp)) (ratio_fl tp (tp + fn)))
+     then q (fmul beta beta) (ratio_fl tp (tp + fp)) (ratio_fl tp (tp + fn)) else f_zero).
+Proof. intros. repeat split. Qed.
+
+Lemma f1_fixed_range_z : forall beta tp fp fn,
+  Fin (fmul beta beta) -> (0 <= tp)%Z -> (0 <= fp)%Z -> (0 <= fn)%Z ->
+  (tp + fp < 2 ^ 53)%Z -> (tp + fn < 2 ^ 53)%Z ->
+  in01f (c1f (f1_fl_z beta tp fp fn)) /\ in01f (c2f (f1_fl_z beta tp fp fn)) /\ in01f (c3f (f1_fl_z beta tp fp fn)).
+Proof.
+  intros beta tp fp fn Fb Htp Hfp Hfn H1 H2. unfold f1_fl_z.
+  destruct (f1_gen_shape fbeta_fixed beta tp fp fn) as (E2 & E3 & E1). rewrite E1, E2, E3. clear E1 E2 E3.
+  destruct (ratio_fl_spec tp (tp + fp) ltac:(lia) H1) as (Fp & _ & P01 & Pz & _ & Ppos & _).
+  destruct (ratio_fl_spec tp (tp + fn) ltac:(lia) H2) as (Fr & _ & R01 & Rz & _ & Rpos & _).
+  set (p := ratio_fl tp (tp + fp)) in *. set (r := ratio_fl tp (tp + fn)) in *.
+  assert (Ip : in01f p) by (split; assumption). assert (Ir : in01f r) by (split; assumption).
+  split; [|split; assumption].
+  destruct (fgt0 (fadd p r)) eqn:G.
+  - assert (T : (0 < tp)%Z).
+    { destruct (Z_lt_le_dec 0 tp) as [T|T]; [exact T|]. exfalso.
+      assert (T0 : tp = 0%Z) by lia.
+      destruct (guard_spec p r Ip Ir G) as [X|X]; [rewrite (proj2 Pz T0) in X|rewrite (proj2 Rz T0) in X]; lra. }
+    assert (Np : NNF p) by (split; tauto).
+    assert (Rr : u53 <= B2R r <= 1) by (split; [apply Rpos; exact T|tauto]).
+    destruct (fbeta_fixed_range (fmul beta beta) p r (b2_NNF beta Fb) Np (proj2 P01) Fr Rr) as [F R].
+    split; assumption.
+  - split; [reflexivity|]. rewrite B2R_zero. lra.
+Qed.
+
+Lemma f1_fixed_range_l : forall beta tp fp fn,
+  Fin (fmul beta beta) -> (Z.of_nat (tp + fp) < 2 ^ 53)%Z -> (Z.of_nat (tp + fn) < 2 ^ 53)%Z ->
+  in01f (c1f (f1_fl beta tp fp fn)) /\ in01f (c2f (f1_fl beta tp fp fn)) /\ in01f (c3f (f1_fl beta tp fp fn)).
+Proof.
+  intros beta tp fp fn Fb H1 H2. unfold f1_fl. apply f1_fixed_range_z; try lia; exact Fb.
+Qed.
+
+(** * left-fold sums of floats in [0,1] and their mean *)
+Lemma IZR_lt_TOP : forall z, (Z.abs z <= 2 ^ 53)%Z -> IZR z < TOP.
+Proof.
+  intros z H. apply Rle_lt_trans with (bpow radix2 53); [|apply bpow53_lt_TOP].
+  rewrite <- IZR_2p53. apply IZR_le. lia.
+Qed.
+
+Lemma fold_fadd_range : forall l acc k,
+  Forall in01f l -> NNF acc -> (0 <= k)%Z -> B2R acc <= IZR k -> (k + Z.of_nat (length l) <= 2 ^ 53)%Z ->
+  NNF (fold_left fadd l acc) /\ B2R (fold_left fadd l acc) <= IZR (k + Z.of_nat (length l)).
+Proof.
+  induction l as [|x l IH]; intros acc k Hl Ha Hk Hak Hn; cbn [fold_left length].
+  - rewrite Z.add_0_r. split; assumption.
+  - inversion Hl as [|? ? (Fx & X0 & X1) Hl']; subst.
+    cbn [length] in Hn. rewrite Nat2Z.inj_succ in *.
+    destruct (fadd_bound acc x (IZR (k + 1)) Ha (conj Fx X0)) as (Hs & _ & Ls).
+    + apply fmt_IZR. lia.
+    + apply IZR_lt_TOP. lia.
+    + rewrite plus_IZR. lra.
+    + destruct (IH (fadd acc x) (k + 1)%Z Hl' Hs ltac:(lia) Ls ltac:(lia)) as [A B].
+      split; [exact A|]. replace (k + Z.succ (Z.of_nat (length l)))%Z with (k + 1 + Z.of_nat (length l))%Z by lia.
+      exact B.
+Qed.
+
+(** a non-negative finite float divided by an integer that bounds it *)
+Lemma fdiv_by_count : forall s n, NNF s -> (1 <= n <= 2 ^ 53)%Z -> B2R s <= IZR n ->
+  in01f (fdiv s (of_Z n)).
+Proof.
+  intros s n [Fs S0] Hn Hs.
+  destruct (of_Z_spec n ltac:(lia)) as [Rn Fn].
+  assert (N1 : 1 <= IZR n) by (apply (IZR_le 1); lia).
+  set (i := / IZR n).
+  assert (i0 : 0 < i) by (apply Rinv_0_lt_compat; lra).
+  assert (Ni : IZR n * i = 1) by (unfold i; field; lra).
+  assert (Q0 : 0 <= B2R s * i) by (apply Rmult_le_pos; lra).
+  assert (Q1 : B2R s * i <= 1).
+  { assert (0 <= (IZR n - B2R s) * i) by (apply Rmult_le_pos; lra). lra. }
+  destruct (fdiv_spec s (of_Z n) Fs ltac:(rewrite Rn; lra)) as [E F].
+  { rewrite Rn. change (B2R s / IZR n) with (B2R s * i).
+    apply rnd_lt_TOP with 1; [apply fmt_1|apply one_lt_TOP|rewrite Rabs_pos_eq; assumption]. }
+  rewrite Rn in E. change (B2R s / IZR n) with (B2R s * i) in E.
+  split; [exact F|]. rewrite E. split; [apply rnd_nonneg; exact Q0|apply rnd_le_fmt; [apply fmt_1|exact Q1]].
+Qed.
+
+Lemma NNF_zero : NNF f_zero.
+Proof. split; [reflexivity|rewrite B2R_zero; lra]. Qed.
+
+(** the mean as the code computes it: left fold from 0.0, then / max(n,1) as f64 *)
+Lemma mean_fl_range_l : forall l, Forall in01f l -> (Z.of_nat (length l) <= 2 ^ 53)%Z ->
+  in01f (fdiv (fold_left fadd l f_zero) (of_nat (Nat.max (length l) 1))).
+Proof.
+  intros l Hl Hn.
+  destruct (fold_fadd_range l f_zero 0 Hl NNF_zero ltac:(lia) ltac:(rewrite B2R_zero; lra) ltac:(lia)) as [A B].
+  unfold of_nat. apply fdiv_by_count; [exact A|lia|].
+  eapply Rle_trans; [exact B|]. apply IZR_le. lia.
+Qed.
+
+(** the partial sums themselves: never above the number of summands *)
+Lemma sum_fl_range_l : forall l, Forall in01f l -> (Z.of_nat (length l) <= 2 ^ 53)%Z ->
+  Fin (fold_left fadd l f_zero) /\ 0 <= B2R (fold_left fadd l f_zero) <= IZR (Z.of_nat (length l)).
+Proof.
+  intros l Hl Hn.
+  destruct (fold_fadd_range l f_zero 0 Hl NNF_zero ltac:(lia) ltac:(rewrite B2R_zero; lra) ltac:(lia)) as [[A A0] B].
+  repeat split; assumption.
+Qed.
+
+(** * aggregation *)
+Definition in01f3 (x : fpr_fl) : Prop := in01f (c1f x) /\ in01f (c2f x) /\ in01f (c3f x).
+
+Lemma fold_fpr_split : forall (g : counts -> fpr_fl) vals a b c,
+  fold_left (fun acc v => fpr_fadd acc (g v)) vals (a, b, c) =
+  (fold_left fadd (map (fun v => c1f (g v)) vals) a,
+   fold_left fadd (map (fun v => c2f (g v)) vals) b,
+   fold_left fadd (map (fun v => c3f (g v)) vals) c).
+Proof.
+  intros g. induction vals as [|v vals IH]; intros a b c; cbn [fold_left map]; [reflexivity|].
+  destruct (g v) as [[x y] z] eqn:E. cbn [fpr_fadd c1f c2f c3f fst snd]. apply IH.
+Qed.
+
+Definition counts_ok (v : counts) : Prop :=
+  match v with (_, tp, fp, fn) => (Z.of_nat (tp + fp) < 2 ^ 53)%Z /\ (Z.of_nat (tp + fn) < 2 ^ 53)%Z end.
+
+Lemma in01f_one : in01f f_one.
+Proof. split; [reflexivity|]. rewrite B2R_one. lra. Qed.
+
+Lemma seq_one_fl_range : forall beta v, Fin (fmul beta beta) -> counts_ok v -> in01f3 (seq_one_fl beta v).
+Proof.
+  intros beta [[[e tp] fp] fn] Fb [H1 H2]. unfold seq_one_fl. destruct e.
+  - repeat split; try apply in01f_one; cbn [c1f c2f c3f fst snd]; rewrite B2R_one; lra.
+  - apply f1_fixed_range_l; assumption.
+Qed.
+
+Lemma seq_avg_f1_fl_range_l : forall beta vals,
+  Fin (fmul beta beta) -> Forall counts_ok vals -> (Z.of_nat (length vals) <= 2 ^ 53)%Z ->
+  in01f3 (seq_avg_f1_fl beta vals).
+Proof.
+  intros beta vals Fb Hv Hn. unfold seq_avg_f1_fl. rewrite fold_fpr_split.
+  cbn [c1f c2f c3f fst snd]. unfold in01f3. cbn [c1f c2f c3f fst snd].
+  assert (K : forall (sel : fpr_fl -> f64), (forall x, in01f3 x -> in01f (sel x)) ->
+            in01f (fdiv (fold_left fadd (map (fun v => sel (seq_one_fl beta v)) vals) f_zero)
+                        (of_nat (Nat.max (length vals) 1)))).
+  { intros sel Hsel. rewrite <- (map_length (fun v => sel (seq_one_fl beta v)) vals).
+    apply mean_fl_range_l; [|rewrite map_length; exact Hn].
+    apply Forall_map. eapply Forall_impl; [|exact Hv]. intros v Hc. apply Hsel. apply seq_one_fl_range; assumption. }
+  repeat split; apply K; intros x (A & B & C); assumption.
+Qed.
+
+(** ** micro averaging and both aggregates *)
+
+Lemma micro_f1_fl_spec : forall beta vals,
+  micro_f1_fl beta vals = f1_fl beta (total tp_of vals) (total fp_of vals) (total fn_of vals).
+Proof. intros beta vals. unfold micro_f1_fl. rewrite micro_fold. reflexivity. Qed.
+
+Definition totals_ok (vals : list counts) : Prop :=
+  (Z.of_nat (total tp_of vals + total fp_of vals) < 2 ^ 53)%Z /\
+  (Z.of_nat (total tp_of vals + total fn_of vals) < 2 ^ 53)%Z.
+
+Lemma total_ge : forall (f : counts -> nat) vals v, In v vals -> (f v <= total f vals)%nat.
+Proof.
+  intros f vals v. unfold total, sum_nat. induction vals as [|w vals IH]; intros H; [contradiction|].
+  cbn [map fold_right]. destruct H as [->|H]; [lia|]. specialize (IH H). lia.
+Qed.
+
+Lemma totals_counts_ok : forall vals, totals_ok vals -> Forall counts_ok vals.
+Proof.
+  intros vals [H1 H2]. apply Forall_forall. intros [[[e tp] fp] fn] Hin.
+  pose proof (total_ge tp_of vals _ Hin) as A. pose proof (total_ge fp_of vals _ Hin) as B.
+  pose proof (total_ge fn_of vals _ Hin) as C. cbn [tp_of fp_of fn_of] in A, B, C.
+  unfold counts_ok. split; lia.
+Qed.
+
+Lemma aggregate_fl_range_l : forall sa beta vals,
+  Fin (fmul beta beta) -> totals_ok vals -> (Z.of_nat (length vals) <= 2 ^ 53)%Z ->
+  in01f3 (aggregate_fl sa beta vals).
+Proof.
+  intros sa beta vals Fb Ht Hn. unfold aggregate_fl. destruct sa.
+  - apply seq_avg_f1_fl_range_l; [exact Fb|apply totals_counts_ok; exact Ht|exact Hn].
+  - rewrite micro_f1_fl_spec. destruct Ht as [H1 H2]. apply f1_fixed_range_l; assumption.
+Qed.
+
+(** ** binary_f1, accuracy *)
+Lemma binary_f1_fl_range_l : forall beta p t x,
+  Fin (fmul beta beta) -> (Z.of_nat (length p) < 2 ^ 53)%Z -> binary_f1_fl beta p t = Some x -> in01f3 x.
+Proof.
+  intros beta p t x Fb Hn H. unfold binary_f1_fl in H.
+  destruct (Nat.eqb (length p) (length t)) eqn:E; [|discriminate]. apply Nat.eqb_eq in E.
+  rewrite count_fold in H. injection H as <-.
+  assert (S : (cnt andb p t + cnt (fun x y => x && negb y) p t + cnt (fun x y => negb x && y) p t <= length p)%nat).
+  { unfold cnt. clear. revert t. induction p as [|a p IH]; intros [|b t]; cbn [combine filter length fst snd]; try lia.
+    specialize (IH t). destruct a, b; cbn [andb negb length]; lia. }
+  apply f1_fixed_range_l; [exact Fb| |]; cbn [Nat.add]; lia.
+Qed.
+
+Lemma accuracy_fl_range_l : forall p t x,
+  (Z.of_nat (length p) < 2 ^ 53)%Z -> accuracy_fl p t = Some x -> in01f x.
+Proof.
+  intros p t x Hn H. unfold accuracy_fl in H.
+  destruct (Nat.eqb (length p) (length t)); [|discriminate]. injection H as <-.
+  pose proof (count_eq_le p t) as L.
+  destruct (ratio_fl_spec (Z.of_nat (count_eq p t)) (Z.of_nat (length p)) ltac:(lia) Hn) as (F & _ & R & _).
+  split; assumption.
+Qed.
+
+(** * calibration, exactly, in binary64 *)
+Lemma fbeta_fixed_one : forall b2 p r, NNF b2 -> Fin p -> Fin r -> B2R p = 1 -> B2R r = 1 ->
+  Fin (fbeta_fixed b2 p r) /\ B2R (fbeta_fixed b2 p r) = 1.
+Proof.
+  intros b2 p r Hb Fp Fr P1 R1.
+  assert (Hp : NNF p) by (split; [exact Fp|lra]). assert (Hr : NNF r) by (split; [exact Fr|lra]).
+  destruct (fmul_le1 b2 p Hb Hp ltac:(lra)) as (Hbp & Ebp & _).
+  rewrite P1, Rmult_1_r, (rnd_fmt _ (fmt_B2R b2)) in Ebp.
+  destruct (fmul_le1 (fmul b2 p) r Hbp Hr ltac:(lra)) as (Hbpr & Ebpr & _).
+  rewrite R1, Rmult_1_r, Ebp, (rnd_fmt _ (fmt_B2R b2)) in Ebpr.
+  destruct (fmul_le1 p r Hp Hr ltac:(lra)) as (Hpr & Epr & _).
+  rewrite P1, R1, Rmult_1_r, (rnd_fmt _ fmt_1) in Epr.
+  destruct (fadd_le1 (fmul b2 p) r Hbp Hr ltac:(lra)) as ([FD D0] & ED). rewrite Ebp, R1 in ED.
+  destruct (fadd_le1 (fmul (fmul b2 p) r) (fmul p r) Hbpr Hpr ltac:(lra)) as ([FN N0] & EN). rewrite Ebpr, Epr in EN.
+  unfold fbeta_fixed.
+  set (N := fadd (fmul (fmul b2 p) r) (fmul p r)) in *. set (D := fadd (fmul b2 p) r) in *.
+  assert (D1 : 1 <= B2R D).
+  { rewrite ED. apply rnd_ge_fmt; [apply fmt_1|]. destruct Hb as [_ B0]. lra. }
+  assert (Q : B2R N / B2R D = 1) by (rewrite EN, <- ED; field; lra).
+  destruct (fdiv_spec N D FN ltac:(lra)) as [E F].
+  { rewrite Q, (rnd_fmt _ fmt_1), Rabs_pos_eq by lra. apply one_lt_TOP. }
+  split; [exact F|]. rewrite E, Q. apply rnd_fmt, fmt_1.
+Qed.
+
+Lemma guard_true : forall p r, in01f p -> in01f r -> 0 < B2R r -> fgt0 (fadd p r) = true.
+Proof.
+  intros p r (Fp & P0 & P1) (Fr & R0 & R1) Rpos.
+  destruct (fadd_bound p r 2 (conj Fp P0) (conj Fr R0) fmt_2 two_lt_TOP ltac:(lra)) as ([Fs _] & Es & _).
+  unfold fgt0. rewrite (Bltb_correct _ _ f_zero (fadd p r) eq_refl Fs), B2R_zero, Es.
+  apply Rlt_bool_true. apply Rlt_le_trans with (B2R r); [exact Rpos|].
+  apply rnd_ge_fmt; [apply fmt_B2R|lra].
+Qed.
+
+Lemma f1_fl_calibrated_l : forall beta,
+  (forall fp fn, (Z.of_nat fp < 2 ^ 53)%Z -> (Z.of_nat fn < 2 ^ 53)%Z ->
+     B2R (c1f (f1_fl beta 0 fp fn)) = 0 /\ B2R (c2f (f1_fl beta 0 fp fn)) = 0 /\ B2R (c3f (f1_fl beta 0 fp fn)) = 0
+     /\ Fin (c1f (f1_fl beta 0 fp fn))) /\
+  (Fin (fmul beta beta) -> forall tp, (0 < tp)%nat -> (Z.of_nat tp < 2 ^ 53)%Z ->
+     B2R (c1f (f1_fl beta tp 0 0)) = 1 /\ B2R (c2f (f1_fl beta tp 0 0)) = 1 /\ B2R (c3f (f1_fl beta tp 0 0)) = 1
+     /\ Fin (c1f (f1_fl beta tp 0 0))).
+Proof.
+  intros beta. split.
+  - intros fp fn Hfp Hfn. unfold f1_fl, f1_fl_z.
+    destruct (f1_gen_shape fbeta_fixed beta (Z.of_nat 0) (Z.of_nat fp) (Z.of_nat fn)) as (E2 & E3 & E1).
+    rewrite E1, E2, E3. clear E1 E2 E3. cbn [Z.of_nat Z.add].
+    destruct (ratio_fl_spec 0 (Z.of_nat fp) ltac:(lia) Hfp) as (Fp & _ & P01 & Pz & _).
+    destruct (ratio_fl_spec 0 (Z.of_nat fn) ltac:(lia) Hfn) as (Fr & _ & R01 & Rz & _).
+    set (p := ratio_fl 0 (Z.of_nat fp)) in *. set (r := ratio_fl 0 (Z.of_nat fn)) in *.
+    assert (P0 : B2R p = 0) by (apply Pz; reflexivity). assert (R0 : B2R r = 0) by (apply Rz; reflexivity).
+    destruct (fgt0 (fadd p r)) eqn:G.
+    + exfalso. destruct (guard_spec p r (conj Fp P01) (conj Fr R01) G); lra.
+    + repeat split; assumption.
+  - intros Fb tp Htp Hn. unfold f1_fl, f1_fl_z.
+    destruct (f1_gen_shape fbeta_fixed beta (Z.of_nat tp) (Z.of_nat 0) (Z.of_nat 0)) as (E2 & E3 & E1).
+    rewrite E1, E2, E3. clear E1 E2 E3. cbn [Z.of_nat]. rewrite Z.add_0_r.
+    destruct (ratio_fl_spec (Z.of_nat tp) (Z.of_nat tp) ltac:(lia) Hn) as (Fp & _ & P01 & _ & P1 & _).
+    set (p := ratio_fl (Z.of_nat tp) (Z.of_nat tp)) in *.
+    assert (E1 : B2R p = 1) by (apply P1; lia).
+    rewrite (guard_true p p) by (try split; try assumption; lra).
+    destruct (fbeta_fixed_one (fmul beta beta) p p (b2_NNF beta Fb) Fp Fp E1 E1) as [F E].
+    repeat split; assumption.
+Qed.
+
+(** * closeness to the rational model (C13_Model.ratio / f1): precision and recall *)
+Lemma rnd_rel : forall x, bpow radix2 (-1022) <= Rabs x -> Rabs (rnd x - x) <= u53 * Rabs x.
+Proof.
+  intros x H. pose proof (relative_error_N_FLT radix2 (SpecFloat.emin prec emax) prec ltac:(reflexivity)
+                          (fun z => negb (Z.even z)) x H) as E.
+  replace (/ 2 * bpow radix2 (- prec + 1)) with u53 in E; [exact E|].
+  unfold u53. change (- prec + 1)%Z with (1 + -53)%Z. rewrite bpow_plus. change (bpow radix2 1) with 2. field.
+Qed.
+
+Lemma Q2R_ratio : forall a b, Q2R (ratio a b) = IZR (Z.of_nat a) / IZR (Z.max (Z.of_nat b) 1).
+Proof.
+  intros a b. unfold ratio, Q2R. cbn [Qnum Qden]. rewrite nz_Z.
+  replace (Z.of_nat (Nat.max b 1)) with (Z.max (Z.of_nat b) 1) by lia. reflexivity.
+Qed.
+
+Lemma ratio_q_close_l : forall a b, (a <= b)%nat -> (Z.of_nat b < 2 ^ 53)%Z ->
+  Rabs (B2R (ratio_fl (Z.of_nat a) (Z.of_nat b)) - Q2R (ratio a b)) <= u53 * Q2R (ratio a b).
+Proof.
+  intros a b Hab Hb.
+  destruct (ratio_fl_spec (Z.of_nat a) (Z.of_nat b) ltac:(lia) Hb) as (_ & E & _).
+  rewrite E, Q2R_ratio. set (q := IZR (Z.of_nat a) / IZR (Z.max (Z.of_nat b) 1)).
+  assert (D1 : 1 <= IZR (Z.max (Z.of_nat b) 1)) by (apply (IZR_le 1); lia).
+  assert (i0 : 0 < / IZR (Z.max (Z.of_nat b) 1)) by (apply Rinv_0_lt_compat; lra).
+  destruct (Nat.eq_dec a 0) as [->|Na].
+  - unfold q. cbn [Z.of_nat]. unfold Rdiv. rewrite Rmult_0_l, rnd_0, Rminus_0_r, Rabs_R0. lra.
+  - assert (Q : u53 <= q).
+    { unfold q, Rdiv. apply Rle_trans with (1 * / IZR (Z.max (Z.of_nat b) 1)).
+      - rewrite Rmult_1_l. apply inv_IZR_ge_u53. lia.
+      - apply Rmult_le_compat_r; [lra|]. apply (IZR_le 1). lia. }
+    pose proof u53_pos as U.
+    pose proof (rnd_rel q) as RR. rewrite (Rabs_pos_eq q) in RR by lra. apply RR.
+    eapply Rle_trans; [|exact Q]. unfold u53. apply bpow_le. lia.
+Qed.
+
+Lemma f1_q_close_pr_l : forall (betaq : Q) beta tp fp fn,
+  (Z.of_nat (tp + fp) < 2 ^ 53)%Z -> (Z.of_nat (tp + fn) < 2 ^ 53)%Z ->
+  Rabs (B2R (c2f (f1_fl beta tp fp fn)) - Q2R (c2 (f1 betaq tp fp fn))) <= u53 * Q2R (c2 (f1 betaq tp fp fn)) /\
+  Rabs (B2R (c3f (f1_fl beta tp fp fn)) - Q2R (c3 (f1 betaq tp fp fn))) <= u53 * Q2R (c3 (f1 betaq tp fp fn)).
+Proof.
+  intros betaq beta tp fp fn H1 H2. unfold f1_fl, f1_fl_z.
+  destruct (f1_gen_shape fbeta_fixed beta (Z.of_nat tp) (Z.of_nat fp) (Z.of_nat fn)) as (E2 & E3 & _).
+  rewrite E2, E3. unfold f1, c2, c3. cbn [fst snd]. rewrite <- !Nat2Z.inj_add.
+  split; apply ratio_q_close_l; try assumption; lia.
+Qed.
